@@ -105,28 +105,72 @@ def _is_none(n):
     return isinstance(n, ast.Constant) and n.value is None
 
 
-def _classify_presence_test(test):
-    """`if a.eq_key:` -> KTruthy ; `if a.eq_key is not None:` -> KIsNotNone ; anything else KUnknown"""
+def _mentions_eq_key(node):
+    return any(isinstance(m, ast.Attribute) and m.attr == "eq_key" for m in ast.walk(node))
+
+
+def _classify_presence_test(node):
+    """Classifies one `if` statement that branches on a field's eq key.  Recognised (X any name):
+         if X.eq_key:              / if not X.eq_key:            -> KTruthy
+         if X.eq_key is not None:  / if X.eq_key is None:        -> KIsNotNone
+    and the branch that goes on to USE the key (mentions .eq_key) must be the one in which the key is present
+    (body for the positive forms; else-branch or the code after an early `continue`/`return` for the negated
+    forms).  Anything else -> None (untranslatable)."""
     def is_key(n):
         return isinstance(n, ast.Attribute) and n.attr == "eq_key" and isinstance(n.value, ast.Name)
-    if is_key(test):
-        return "KTruthy"
-    if (isinstance(test, ast.Compare) and is_key(test.left) and len(test.ops) == 1
-            and isinstance(test.ops[0], ast.IsNot) and _is_none(test.comparators[0])):
-        return "KIsNotNone"
-    return "KUnknown"
+    t = node.test
+    kind = positive = None
+    if is_key(t):
+        kind, positive = "KTruthy", True
+    elif isinstance(t, ast.UnaryOp) and isinstance(t.op, ast.Not) and is_key(t.operand):
+        kind, positive = "KTruthy", False
+    elif (isinstance(t, ast.Compare) and is_key(t.left) and len(t.ops) == 1 and _is_none(t.comparators[0])
+          and isinstance(t.ops[0], (ast.Is, ast.IsNot))):
+        kind, positive = "KIsNotNone", isinstance(t.ops[0], ast.IsNot)
+    if kind is None:
+        return None
+    body_uses = any(_mentions_eq_key(st) for st in node.body)
+    else_uses = any(_mentions_eq_key(st) for st in node.orelse)
+    if positive and body_uses and not else_uses:
+        return kind
+    if not positive and not body_uses:
+        return kind
+    return None
 
 
-def _site_test(fn):
-    """the presence test of the single `if <... a.eq_key ...>:` inside function `fn`"""
-    ifs = [n for n in ast.walk(fn) if isinstance(n, ast.If)
-           and any(isinstance(m, ast.Attribute) and m.attr == "eq_key" for m in ast.walk(n.test))]
-    return _classify_presence_test(ifs[0].test) if len(ifs) == 1 else "KUnknown"
+def _module_functions(make):
+    return {n.name: n for n in make.body if isinstance(n, ast.FunctionDef)}
+
+
+def _with_callees(fn, fns, depth=3):
+    """`fn` and the module-level functions it calls by name (helpers extracted from it), transitively"""
+    seen, todo = {fn.name: fn}, [(fn, 0)]
+    while todo:
+        f, d = todo.pop()
+        if d >= depth:
+            continue
+        for c in ast.walk(f):
+            if isinstance(c, ast.Call) and isinstance(c.func, ast.Name) and c.func.id in fns \
+                    and c.func.id not in seen:
+                seen[c.func.id] = fns[c.func.id]
+                todo.append((fns[c.func.id], d + 1))
+    return list(seen.values())
+
+
+def _site_test(name, fns):
+    """The presence test a generator function (or a helper it calls) applies to a field's eq key: every `if`
+    that branches on `.eq_key` must classify, and all must agree; otherwise None (untranslatable)."""
+    if name not in fns:
+        return None
+    sites = [n for f in _with_callees(fns[name], fns) for n in ast.walk(f)
+             if isinstance(n, (ast.If, ast.IfExp, ast.While)) and _mentions_eq_key(n.test)]
+    kinds = {(_classify_presence_test(n) if isinstance(n, ast.If) else None) for n in sites}
+    return kinds.pop() if len(kinds) == 1 else None
 
 
 def _norm_test(make):
     """Attribute.__init__: the expression handed to _determine_attrib_eq_order for eq:
-    `eq_key or eq` -> KTruthy ; `eq if eq_key is None else eq_key` (or mirrored) -> KIsNotNone"""
+    `eq_key or eq` -> KTruthy ; `eq if eq_key is None else eq_key` (or mirrored) -> KIsNotNone ; else None"""
     for n in make.body:
         if isinstance(n, ast.ClassDef) and n.name == "Attribute":
             for f in n.body:
@@ -134,7 +178,7 @@ def _norm_test(make):
                     calls = [c for c in ast.walk(f) if isinstance(c, ast.Call)
                              and _is_name(c.func, "_determine_attrib_eq_order")]
                     if len(calls) != 1 or len(calls[0].args) < 2:
-                        return "KUnknown"
+                        return None
                     e = calls[0].args[1]
                     if (isinstance(e, ast.BoolOp) and isinstance(e.op, ast.Or) and len(e.values) == 2
                             and _is_name(e.values[0], "eq_key") and _is_name(e.values[1], "eq")):
@@ -145,17 +189,31 @@ def _norm_test(make):
                             return "KIsNotNone"
                         if isinstance(e.test.ops[0], ast.IsNot) and _is_name(e.body, "eq_key") and _is_name(e.orelse, "eq"):
                             return "KIsNotNone"
-                    return "KUnknown"
-    return "KUnknown"
+                    if isinstance(e, ast.IfExp) and _is_name(e.test, "eq_key") and _is_name(e.body, "eq_key") \
+                            and _is_name(e.orelse, "eq"):
+                        return "KTruthy"
+                    return None
+    return None
+
+
+KEY_TESTS_READ = [None]   # what the last pre_build() read (for the evidence)
 
 
 def _key_test_lines(make):
-    fns = {n.name: n for n in make.body if isinstance(n, ast.FunctionDef)}
-    eq_t = _site_test(fns["_make_eq_script"]) if "_make_eq_script" in fns else "KUnknown"
-    hash_t = _site_test(fns["_make_hash_script"]) if "_make_hash_script" in fns else "KUnknown"
-    return ["(* how Attribute.__init__ / _make_eq_script / _make_hash_script test for the presence of an eq key *)",
+    fns = _module_functions(make)
+    tests = (_norm_test(make), _site_test("_make_eq_script", fns), _site_test("_make_hash_script", fns))
+    ok = all(t is not None for t in tests)
+    KEY_TESTS_READ[0] = list(tests)
+    # Fail closed: if any site has a shape the reader does not know, NOTHING is claimed about the source
+    # (src_key_tests_read = None: the tie lemmas are then trivially true, the evidence says "unavailable")
+    # and the model is evaluated with the tests the property asks for (every given key is applied).
+    return ["(* how Attribute.__init__ / _make_eq_script / _make_hash_script test for the presence of an eq key;",
+            "   None = some site has a shape the reader does not recognise (tie unavailable) *)",
             "From Attrs Require Import C04.Model.",
-            "Definition src_key_tests : ktests := KT %s %s %s." % (_norm_test(make), eq_t, hash_t)]
+            "Definition src_key_tests_read : option ktests := %s."
+            % ("Some (KT %s %s %s)" % tests if ok else "None"),
+            "Definition src_key_tests : ktests :=",
+            "  match src_key_tests_read with Some t => t | None => KT KIsNotNone KIsNotNone KIsNotNone end."]
 
 
 def pre_build():
@@ -1141,6 +1199,10 @@ def extra(tier, seed):
                             {"corpus": "c04_bases_build"})
            for k, msg in _base_errors[:5]]
     cov_tie = script_tie()
+    r = KEY_TESTS_READ[0]
+    cov_tie["key_presence_tie"] = ("unavailable (a site has an unrecognised shape: %r)" % (r,)
+                                   if r is None or None in r else
+                                   "norm=%s eq=%s hash=%s" % tuple(r))
     cov_tie.update({"runtime_observations": 0,
                  "info_twin_classes_hash_differently": "%d of %d same-shape class pairs (type salt; not asserted)"
                  % (_twin["differ"], _twin["pairs"])})
